@@ -79,6 +79,7 @@ def record_executions(rep, tier):
         with tr:
             tr.taint(x)
             outs = f(x)
+            tr.result(outs)
         execs.append((z["name"] + " forward", start, len(tr.events)))
         # ---- backward of the forward (taint = cotangent)
         xg = x.clone().requires_grad_(True)
@@ -90,7 +91,7 @@ def record_executions(rep, tier):
             with tr:
                 for c in cots:
                     tr.taint(c)
-                torch.autograd.grad(outs, xg, cots, allow_unused=True)
+                tr.result([g_ for g_ in torch.autograd.grad(outs, xg, cots, allow_unused=True) if g_ is not None])
             execs.append((z["name"] + " backward", start, len(tr.events)))
         except Exception as e:   # noqa  (a backward that raises is C05/C06's business)
             del tr.events[start:]
@@ -131,6 +132,7 @@ def record_executions(rep, tier):
             for h in yh:
                 tr.taint(h)
             y = inv((yl, yh))
+            tr.result([y])
         execs.append((z["name"].replace("Forward", "Inverse") + " forward", start, len(tr.events)))
         yl2 = yl.clone().requires_grad_(True)
         yh2 = [h.clone().requires_grad_(True) for h in yh]
@@ -141,7 +143,7 @@ def record_executions(rep, tier):
         try:
             with tr:
                 tr.taint(cot)
-                torch.autograd.grad(y, [yl2] + yh2, cot, allow_unused=True)
+                tr.result([g_ for g_ in torch.autograd.grad(y, [yl2] + yh2, cot, allow_unused=True) if g_ is not None])
             execs.append((z["name"].replace("Forward", "Inverse") + " backward", start, len(tr.events)))
         except Exception:   # noqa
             del tr.events[start:]
@@ -194,6 +196,33 @@ def validate_executions(rep, pid, tier):
     for name, a, b in execs:
         r = [k for k in range(a, b) if k in rejset]
         rep.nontriv(("exec", name))
+        # a rejected operation whose results cannot reach what the execution RETURNED (input validation such as
+        # `assert torch.isfinite(x).all()`: abs / comparisons / boolean reductions / a boolean read into Python) does not enter the
+        # returned values; on data that passes the test the path is the same.  Forward reachability over storages (views alias).
+        r_all = r
+        if r:
+            results = set()
+            for k in range(a, b):
+                if events[k]["cat"] == "result":
+                    results |= {sid for sid, _ in events[k]["args"]}
+            if results:
+                def reaches(k0):
+                    reach = set(events[k0]["outs"]) | ({events[k0]["dst"]} if events[k0]["dst"] else set())
+                    for k in range(k0 + 1, b):
+                        e_ = events[k]
+                        if e_["cat"] in ("result", "reset", "input"):
+                            continue
+                        if any(sid in reach for sid, _ in e_["args"]):
+                            reach |= set(e_["outs"])
+                            if e_["dst"]:
+                                reach.add(e_["dst"])
+                    return bool(reach & results)
+                r = [k for k in r if reaches(k)]
+        if r_all and not r:
+            inconclusive.append(name)
+            rep.drift.append("linearity acceptor: the rejected operation(s) of '%s' (%s, ...) cannot reach the returned tensors - a test of the data "
+                             "(input validation), not part of the returned values; the numeric probes decide" % (name, events[r_all[0]]["op"]))
+            continue
         if r and events[r[0]]["cat"] in INCONCLUSIVE:
             # the FIRST rejection is an operator the vocabulary does not know: the structural argument is inconclusive for this
             # execution (an unlisted operator may well be linear) - not a verdict; the numeric probes below (superposition and
